@@ -89,8 +89,18 @@ pub struct Udp {
 }
 
 impl Udp {
-    pub async fn build() -> Result<Udp, String> {
-        let (a, ta) = gathered(base_cfg(), "ice-a").await?;
+    /// `mux` = the process-wide single-port UDP socket (packets demultiplexed by ufrag / source address).
+    pub async fn build(mux: bool) -> Result<Udp, String> {
+        let mut cfg = base_cfg();
+        if mux {
+            let port = {
+                let s = std::net::UdpSocket::bind("127.0.0.1:0").map_err(|e| e.to_string())?;
+                s.local_addr().unwrap().port()
+            };
+            cfg.ice_udp_mux = true;
+            cfg.ice_udp_mux_port = Some(port);
+        }
+        let (a, ta) = gathered(cfg, "ice-a").await?;
         let a_addr = a
             .local_candidates()
             .iter()
